@@ -23,7 +23,7 @@ func zzPowers(n int) (ps []uint64, total uint64) {
 
 // C13(v) / L1-threshold: NewValidatorSet computes TotalPower = sum and MinimumMaj23 = floor(2T/3)+1.
 //
-//zz:harness mode=int unwind=40
+//zz:harness mode=int unwind=40 param.n@thorough=6
 //zz:reach VS.done
 func ZZ_C13_V5_threshold() {
 	n := zzParam("n", 4)
@@ -41,7 +41,7 @@ func ZZ_C13_V5_threshold() {
 // L1 quorum intersection: two signer sets that each reach MinimumMaj23 overlap in validators that
 // together hold more than 1/3 of the power (so the overlap cannot consist of Byzantine nodes only).
 //
-//zz:harness mode=int unwind=40
+//zz:harness mode=int unwind=40 param.n@thorough=6
 //zz:reach L1.done
 func ZZ_C01_L1_quorum_intersection() {
 	n := zzParam("n", 4)
@@ -71,7 +71,7 @@ func ZZ_C01_L1_quorum_intersection() {
 // claim to have reached - strictly more than any coalition of Byzantine validators (< 1/3) can
 // muster, so some correct validator really is at that round.
 //
-//zz:harness mode=int unwind=60
+//zz:harness mode=int unwind=60 param.n@thorough=5
 //zz:reach P1.jump P1.stay
 func ZZ_C15_P1_pacemaker_needs_one_third() {
 	n := zzParam("n", 4)
@@ -117,7 +117,7 @@ func ZZ_C15_P1_pacemaker_needs_one_third() {
 // and with repeats: a validator that sends several (different) claims is still one validator - only
 // its latest claim counts, and its power is counted once.
 //
-//zz:harness mode=int unwind=60 maxpaths=60000 timebudget=900
+//zz:harness mode=int unwind=60 maxpaths=60000 timebudget=900 param.messages@thorough=5
 //zz:reach P1b.jump P1b.stay
 func ZZ_C15_P1b_pacemaker_counts_each_validator_once() {
 	n := zzParam("n", 3)
